@@ -56,14 +56,15 @@ confirmed = res["demo_clean"][0] == "ok" and res["demo_clean_exit"] == 0 and res
 # run the checks against it
 fired = {}
 if confirmed:
-    rc, out = run("git -C /repo apply %s" % patch, "/")
+    scratch = tempfile.mkdtemp(prefix="seed-tree-")
+    rc, out = run("rsync -a --exclude target --exclude .git /repo/ %s/ && cd %s && patch -p1 -s < %s" % (scratch, scratch, patch), "/")
     assert rc == 0, out
     try:
         man = json.load(open("/verif/MANIFEST.json"))
         evd = tempfile.mkdtemp(prefix="seed-ev-")
         for c in man["checks"]:
             cid = c["property_id"]
-            rc, out = run(c["quick_cmd"], "/verif", {"VERIF_EVIDENCE_DIR": evd})
+            rc, out = run(c["quick_cmd"], "/verif", {"VERIF_EVIDENCE_DIR": evd, "VERIF_REPO": scratch})
             keys = []
             try:
                 keys = json.load(open(os.path.join(evd, cid + ".json")))["coverage"].get("new_violations", [])
@@ -73,12 +74,12 @@ if confirmed:
                 fired[cid] = keys[:6]
         shutil.rmtree(evd, ignore_errors=True)
     finally:
-        run("git -C /repo checkout -- .", "/")
+        shutil.rmtree(scratch, ignore_errors=True)
 st = subprocess.run("git -C /repo status --short", shell=True, stdout=subprocess.PIPE, text=True).stdout
 assert st.strip() == "", "repo not clean: " + st
 meta = {"property": pid, "name": name, "needs_to_manifest": needs, "confirmed": confirmed, "confirmation": res,
         "ran": ["scratch worktree of /repo HEAD: demonstration on the clean tree, demonstration with the patch, full workspace suite with the patch",
-                "git -C /repo apply patch.diff; every quick_cmd of MANIFEST.json with VERIF_EVIDENCE_DIR redirected; git -C /repo checkout -- ."],
+                "patch applied to a scratch copy of /repo's working tree (equivalent to git -C /repo apply / checkout, without touching /repo); every quick_cmd of MANIFEST.json with VERIF_REPO pointing at the copy and VERIF_EVIDENCE_DIR redirected; copy removed"],
         "checks_that_report_it": fired, "reported_by_claimed_check": pid in fired}
 json.dump(meta, open(os.path.join(dst, "meta.json"), "w"), indent=1)
 print("confirmed:", confirmed, "| reported by:", {k: v[:2] for k, v in fired.items()})
